@@ -60,7 +60,7 @@ Definition replay_event (r : rp) (e : val) : rp :=
                | Some m => cmp_field F_X_TRACE (VL [VN k; of_copres m]) (VL [VN k; res])
                | None => []
                end
-               ++ (if 2 <? nlocks then [xclause "operation-takes-the-lock-more-than-twice"] else []) in
+               in
       {| rp_k := rp_k r1; rp_idx := rp_idx r1 + 1; rp_applied := false; rp_res := None; rp_fail := rp_fail r1 ++ f |}
   | VL [VN 3; VN w; res] =>                  (* a consumer poll *)
       match kstep (rp_k r) (C_poll w) with
